@@ -178,7 +178,16 @@ impl Space for IdentSweep {
                     };
                     if *r != want {
                         out.violate(
-                            format!("single-ident-defect-misreported:{} want {:?}", who, std::mem::discriminant(&want)),
+                            format!(
+                                "single-ident-defect-misreported:{} want {}",
+                                who,
+                                match want {
+                                    Outcome3::BadMagic(_) => "BadMagic",
+                                    Outcome3::Class(_) => "UnsupportedElfClass",
+                                    Outcome3::Version(..) => "UnsupportedVersion",
+                                    _ => "UnsupportedElfEndianness",
+                                }
+                            ),
                             format!("{desc}: expected {:?}, got {:?}", want, r),
                         );
                     }
